@@ -273,6 +273,14 @@ class Interp:
             for x in e.elts:
                 out = join(out, self.ev(x, env, f))
             return coll(out)
+        if isinstance(e, ast.Dict):
+            out = None
+            for x in e.values:
+                out = join(out, self.ev(x, env, f))
+            return ('map', out)
+        if isinstance(e, ast.DictComp):
+            inner = self.comp(ast.ListComp(elt=e.value, generators=e.generators), env, f)
+            return ('map', inner[1])
         if isinstance(e, ast.List):
             vals = [self.ev(x, env, f) for x in e.elts]
             if self._is_term_literal(e, f):
@@ -464,6 +472,22 @@ class Interp:
                 return NONE
             if name in ('is_chomsky', 'isdisjoint', 'startswith', 'endswith'):
                 return ('bool', None)
+            if name in ('keys',):
+                return coll(TOP)
+            if name in ('values',):
+                v = self.ev(fn.value, env, f)
+                return coll(v[1]) if v[0] == 'map' else TOP
+            if name == 'get' and e.args:
+                v = self.ev(fn.value, env, f)
+                if v[0] == 'map':
+                    d = self.ev(e.args[1], env, f) if len(e.args) > 1 else NONE
+                    return join(v[1], d) if v[1] is not None else d
+            # a method of a tracked collection that the interpreter does not model: give up rather than skip it (a skipped
+            # growth would "prove" that a level can never be produced)
+            base = fn.value.value if isinstance(fn.value, ast.Subscript) else fn.value
+            if isinstance(base, ast.Name) and env.get(base.id, TOP)[0] in ('coll', 'map') and name not in (
+                    'sort', 'reverse', 'index', 'count', 'issubset', 'issuperset', 'intersection', 'difference', 'get', 'values', 'keys'):
+                raise Outside('method {} of the tracked collection {}'.format(name, base.id))
         ref = self.ctx.resolve_call(f, e)
         cname = self.ctx.callee_name(f, e)
         args = [self.ev(a, env, f) for a in e.args]
